@@ -12,7 +12,10 @@ Inductive case :=
 | CRun (d0 : Z * Z * Z * Z * Z * Z)       (* s_rT s_tT lastSend lastRecv cR cT at boot *)
        (progs : list (list op)) (sched : list nat)
        (obs_disk : Z * Z * Z * Z)           (* s_rT s_tT lastSend lastRecv found in the store at the crash point *)
-       (obs_restored : Z * Z * Z * Z).      (* rT rC tT tC of the restarted service *)
+       (obs_restored : Z * Z * Z * Z)       (* rT rC tT tC of the restarted service *)
+| CSeq (ops : list op) (obs_restored : Z * Z * Z * Z).
+  (* one peer of a sequential multi-peer history (no stored state at boot, chain amounts 0): the
+     operations run to completion one after the other (cash-out receipts included), then a restart *)
 
 Definition mkd (t : Z * Z * Z * Z * Z * Z) : dsk :=
   let '(a, b, c, e, f, g) := t in {| s_rT := a; s_tT := b; lastSend := c; lastRecv := e; cR := f; cT := g |}.
@@ -24,6 +27,11 @@ Definition model_out (c : case) : (Z * Z * Z * Z) * (Z * Z * Z * Z) :=
       let s := exec (boot true d (ghost0 (restore d)) progs) sched in
       let r := restore (disk s) in
       ((s_rT (disk s), s_tT (disk s), lastSend (disk s), lastRecv (disk s)), (rT r, rC r, tT r, tC r))
+  | CSeq ops _ =>
+      let d := mkd (0, 0, 0, 0, 0, 0) in
+      let s := exec (boot true d (ghost0 (restore d)) [ops]) (repeat 0%nat (5 * length ops)) in
+      let r := restore (disk s) in
+      ((s_rT (disk s), s_tT (disk s), lastSend (disk s), lastRecv (disk s)), (rT r, rC r, tT r, tC r))
   end.
 Definition q_eqb (a b : Z * Z * Z * Z) : bool :=
   let '(a1, a2, a3, a4) := a in let '(b1, b2, b3, b4) := b in
@@ -31,6 +39,7 @@ Definition q_eqb (a b : Z * Z * Z * Z) : bool :=
 Definition check_case (c : case) : bool :=
   match c with
   | CRun _ _ _ od orr => let '(md, mr) := model_out c in q_eqb md od && q_eqb mr orr
+  | CSeq _ orr => q_eqb (snd (model_out c)) orr
   end.
 Definition explain_case (c : case) :=
-  match c with CRun _ _ _ od orr => (model_out c, (od, orr)) end.
+  match c with CRun _ _ _ od orr => (model_out c, (od, orr)) | CSeq _ orr => (model_out c, ((0, 0, 0, 0), orr)) end.
